@@ -61,6 +61,27 @@ def frame_cases(tier: str, rng: random.Random) -> List[Dict[str, Any]]:
         tuples = list(itertools.product(range(4), repeat=n))
         for bells in rng.sample(tuples, min(len(tuples), 24 if tier == "quick" else 120)):
             out.append(dict(kind="frame", variant="post_h", nv=False, role="recv", expect=True, n=n, bells=list(bells), by=0, early=True))
+    # the application's previous connection (same controller, same application id) left a kept pair behind when it closed
+    for variant in ("keep", "post_h", "rsp"):
+        for nv in (False, True):
+            if nv and variant == "post_h":
+                continue
+            for n in (1, 2, 3):
+                if variant in ("keep", "rsp") and n > 1:
+                    continue        # (several pairs without a post routine: the recorded finding about corrections aimed at qubit 0)
+                tuples = list(itertools.product(range(4), repeat=n))
+                for bells in rng.sample(tuples, min(len(tuples), 8 if tier == "quick" else 32)):
+                    out.append(dict(kind="frame", variant=variant, nv=nv, role="recv", expect=True, n=n, bells=list(bells), by=0, earlier_session=True))
+    # two applications on one controller, interleaved at every wait (and, as a control, one after the other)
+    for variant in ("keep", "post_h"):
+        for m in (1, 2):
+            if variant == "keep" and m > 1:
+                continue
+            tuples = list(itertools.product(range(4), repeat=2 * m))
+            for bells in rng.sample(tuples, min(len(tuples), 16 if tier == "quick" else 64)):
+                for first in (0, 1):
+                    out.append(dict(kind="frame", variant=variant, nv=False, role="recv", expect=True, n=2 * m, bells=list(bells), by=0, apps=2, first=first,
+                                    interleave=(sum(bells) + first) % 4 != 0))
     # a request with a fidelity constraint whose first attempt is rejected (its last pair took too long): the pairs of the
     # rejected attempt are discarded, the pairs of the second attempt (pair numbers n..2n-1) are the ones that count
     for variant in ("retry_post_h", "retry_keep"):
@@ -77,6 +98,43 @@ def frame_cases(tier: str, rng: random.Random) -> List[Dict[str, Any]]:
     return out
 
 
+def _frame_events(ex, mark, row, cur, faulted_correction):
+    """the executed quantum history since `mark` as BellFrame events"""
+    # the relocation of a bystander on single-communication-qubit hardware changes where it lives
+    holds = set()          # physical qubits that hold a pair right now (a qfree of one of THOSE discards the pair)
+    for g in ex.gate_log[mark:]:
+        mn, virt, imm, phys = g[0], g[1], g[2], g[3]
+        if mn == "deliver":
+            holds.add(phys[0])
+        elif mn == "mov":
+            holds.discard(phys[0]); holds.add(phys[1])
+        elif mn == "meas":
+            holds.discard(phys[0])
+        elif mn == "qfree":
+            if phys[0] not in holds:
+                continue            # the free that belongs to a destructive measurement or to a move
+            holds.discard(phys[0])
+        if mn == "deliver":
+            row["events"].append(dict(a="deliver", p=virt[0], b=imm[0], q=phys[0], q2=0, ax=""))
+        elif mn in ("rot_x", "rot_z") and tuple(imm) == (16, 4):
+            row["events"].append(dict(a="pauli", p=0, b=0, q=phys[0], q2=0, ax="X" if mn == "rot_x" else "Z"))
+        elif mn in ("x", "z"):
+            row["events"].append(dict(a="pauli", p=0, b=0, q=phys[0], q2=0, ax=mn.upper()))
+        elif mn == "mov":
+            row["events"].append(dict(a="mov", p=0, b=0, q=phys[0], q2=phys[1], ax=""))
+        elif mn == "meas":
+            row["events"].append(dict(a="meas", p=0, b=0, q=phys[0], q2=0, ax=""))
+        elif mn == "qfree":
+            row["events"].append(dict(a="discard", p=0, b=0, q=phys[0], q2=0, ax=""))
+        elif mn == "init":
+            continue
+        else:
+            for q in phys:
+                row["events"].append(dict(a="use", p=0, b=0, q=q, q2=0, ax=""))
+    if faulted_correction:
+        row["events"].append(dict(a="pauli", p=0, b=0, q=-1, q2=0, ax="X" if cur.mnemonic == "rot_x" else "Z"))
+
+
 def _run_frame(item):
     from . import rig
     from netqasm.sdk.build_types import NVHardwareConfig
@@ -87,10 +145,25 @@ def _run_frame(item):
     if c["nv"]:
         kw["hardware_config"] = NVHardwareConfig(6)
     sock = EPRSocket("bob")
-    conn = rig.VConnection("alice", max_qubits=6, epr_sockets=[sock], **kw)
+    ctrl0 = None
+    if c.get("earlier_session"):
+        # an earlier connection of the same application on the same controller: it receives one pair (Psi-: both
+        # corrections), keeps the qubit until it closes
+        s0 = EPRSocket("bob")
+        c0 = rig.VConnection("alice", max_qubits=6, epr_sockets=[s0], **kw)
+        c0.link = rig.AutoLink(c0.ex, c0.stack, bell=[3], stepwise=True)
+        c0.link.remote.append(dict(remote=1, purpose=0, type="K", n=1))
+        s0.recv_keep(1)
+        c0.flush()
+        c0.close()
+        ctrl0 = c0.ctrl
+    conn = rig.VConnection("alice", ctrl=ctrl0, successor=ctrl0 is not None, max_qubits=6, epr_sockets=[sock], **kw)
     ex = conn.ex
     ex.meas_script = [0, 1] * 20
     conn.link = rig.AutoLink(ex, conn.stack, bell=c["bells"], stepwise=True, mark=True)
+    if c.get("earlier_session"):
+        # this time the link uses other physical qubits, the later pair on the lower one
+        conn.link.fields = lambda k_, kind_: {"logical_qubit_id": 7 - k_}
     if c.get("tries"):
         ex.log_qfree = True
         per = c["n"] // c["tries"]
@@ -158,40 +231,89 @@ def _run_frame(item):
             # a correction aimed at a virtual qubit that does not exist is this property's business;
             # any other fault (qubit management, C09) is not judged here
             faulted_correction = isinstance(exc, rig.ControllerFault) and getattr(cur, "mnemonic", "") in ("rot_x", "rot_z") and imm == (16, 4)
-        # the relocation of a bystander on single-communication-qubit hardware changes where it lives
-        holds = set()          # physical qubits that hold a pair right now (a qfree of one of THOSE discards the pair)
-        for g in ex.gate_log[mark:]:
-            mn, virt, imm, phys = g[0], g[1], g[2], g[3]
-            if mn == "deliver":
-                holds.add(phys[0])
-            elif mn == "mov":
-                holds.discard(phys[0]); holds.add(phys[1])
-            elif mn == "meas":
-                holds.discard(phys[0])
-            elif mn == "qfree":
-                if phys[0] not in holds:
-                    continue            # the free that belongs to a destructive measurement or to a move
-                holds.discard(phys[0])
-            if mn == "deliver":
-                row["events"].append(dict(a="deliver", p=virt[0], b=imm[0], q=phys[0], q2=0, ax=""))
-            elif mn in ("rot_x", "rot_z") and tuple(imm) == (16, 4):
-                row["events"].append(dict(a="pauli", p=0, b=0, q=phys[0], q2=0, ax="X" if mn == "rot_x" else "Z"))
-            elif mn in ("x", "z"):
-                row["events"].append(dict(a="pauli", p=0, b=0, q=phys[0], q2=0, ax=mn.upper()))
-            elif mn == "mov":
-                row["events"].append(dict(a="mov", p=0, b=0, q=phys[0], q2=phys[1], ax=""))
-            elif mn == "meas":
-                row["events"].append(dict(a="meas", p=0, b=0, q=phys[0], q2=0, ax=""))
-            elif mn == "qfree":
-                row["events"].append(dict(a="discard", p=0, b=0, q=phys[0], q2=0, ax=""))
-            elif mn == "init":
-                continue
-            else:
-                for q in phys:
-                    row["events"].append(dict(a="use", p=0, b=0, q=q, q2=0, ax=""))
-        if row["fault"] and faulted_correction:
-            row["events"].append(dict(a="pauli", p=0, b=0, q=-1, q2=0, ax="X" if cur.mnemonic == "rot_x" else "Z"))
+        _frame_events(ex, mark, row, cur if row["fault"] else None, row["fault"] and faulted_correction)
     except Exception as exc:  # the SDK itself refused
+        row["err"] = f"{type(exc).__name__}: {exc}"[:200]
+    return row
+
+
+def _run_frame_two(item):
+    """two applications on one controller, each receiving pairs on its own socket; their subroutines are interleaved at every
+    wait (a response arrives for the one that waits, then the other application runs)"""
+    from . import rig
+    from netqasm.backend import messages as M_
+    from netqasm.sdk.epr_socket import EPRSocket
+    i, c = item
+    row = dict(c, id=i, err="", fault=False, exc="", events=[], bystanders=[])
+    try:
+        m = c["n"] // 2
+        names = ("alice", "alice")         # (application ids are handed out per application name: 0 and 1)
+        conns, socks = [], []
+        for a_, name in enumerate(names):
+            s_ = EPRSocket("bob", epr_socket_id=a_)
+            cn = rig.VConnection(name, ctrl=conns[0].ctrl if conns else None, successor=bool(conns), share_stack=bool(conns), max_qubits=6, epr_sockets=[s_])
+            conns.append(cn)
+            socks.append(s_)
+        ex = conns[0].ex
+        ex.meas_script = [0, 1] * 20
+        link = rig.AutoLink(ex, conns[0].stack, bell=c["bells"], stepwise=True, mark=True)
+        streams = [dict(remote=1, purpose=a_, type="K", n=m) for a_ in range(2)]
+
+        def post_h(conn_, q, pair):
+            q.H()
+
+        gens = []
+        mark = len(ex.gate_log)
+        for a_, (cn, s_) in enumerate(zip(conns, socks)):
+            cn.defer = True
+            if c["variant"] == "post_h":
+                s_.recv_keep(m, post_routine=post_h)
+            else:
+                s_.recv_keep(m)
+            cn.flush()
+            msgs = [M_.deserialize_host_msg(raw) for raw in cn.deferred]
+            gens.append([cn.ctrl.handle_netqasm_message(msg_id=100 * (a_ + 1) + j, msg=msg_) for j, msg_ in enumerate(msgs)])
+        ex.exec_count, ex.exec_limit = 0, 200000
+        turn, done, idle = c.get("first", 0), set(), 0
+        try:
+            while len(done) < 2:
+                if turn in done:
+                    turn = 1 - turn
+                parked = False
+                try:
+                    while gens[turn]:
+                        y = next(gens[turn][0], "END")
+                        if y == "END":
+                            gens[turn].pop(0)
+                        elif y == rig.WAIT:
+                            parked = True
+                            break
+                    if not gens[turn]:
+                        done.add(turn)
+                except rig.Stuck:
+                    raise
+                except Exception as exc:
+                    raise rig.ControllerFault(f"{type(exc).__name__}: {str(exc).splitlines()[0]}") from exc
+                if parked:
+                    st = streams[turn]
+                    if st["n"] > 0:
+                        st["n"] -= 1
+                        idle = 0
+                        ex._handle_epr_response(link._resp("K", 1, st["remote"], st["purpose"]))
+                    else:
+                        idle += 1
+                        if idle > 6:
+                            raise rig.Stuck("both applications wait and the link has nothing more to deliver")
+                    if c.get("interleave", True):
+                        turn = 1 - turn          # the other application runs before this one resumes
+        except (rig.ControllerFault, rig.Stuck) as exc:
+            row["fault"] = True
+            row["exc"] = str(exc)[:200]
+        cur = getattr(ex, "current_cmd", None)
+        imm = tuple(getattr(getattr(cur, a, None), "value", None) for a in ("angle_num", "angle_denom")) if cur is not None else ()
+        fc = row["fault"] and getattr(cur, "mnemonic", "") in ("rot_x", "rot_z") and imm == (16, 4)
+        _frame_events(ex, mark, row, cur, fc)
+    except Exception as exc:
         row["err"] = f"{type(exc).__name__}: {exc}"[:200]
     return row
 
@@ -429,15 +551,17 @@ def run(prop: str, tier: str) -> int:
                 V.add(v[1], w, f"{r['api']}: Bell state {r['bell']} measured in {r['basis']} on both nodes, expect_phi_plus={r['expect']}: "
                       f"raw -> post-processed (creator, receiver) {[((x['rawc'], x['rawr']), (x['outc'], x['outr'])) for x in r['rows']]} {r['err']}: {v[1]}", r)
                 continue
-            key = json.dumps([v[1], r["variant"], r["nv"], r["role"], r["expect"], r["n"], r["by"]])
+            key = json.dumps([v[1], r["variant"], r["nv"], r["role"], r["expect"], r["n"], r["by"], _setting(r)])
             groups.setdefault(key, []).append((r["bells"], r, v))
         for key, lst in sorted(groups.items()):
             lst.sort(key=lambda t: t[0])
             bells0, r, v = lst[0]
-            total = sum(1 for x in rows if x["kind"] == r["kind"] and all(x[f] == r[f] for f in ("variant", "nv", "role", "expect", "n", "by")))
+            total = sum(1 for x in rows if x["kind"] == r["kind"] and all(x[f] == r[f] for f in ("variant", "nv", "role", "expect", "n", "by")) and _setting(x) == _setting(r))
             sha = hashlib.sha256(json.dumps([t[0] for t in lst]).encode()).hexdigest()[:12]
             w = {"variant": r["variant"], "hardware": _hw(r), "role": r["role"], "expect": r["expect"],
                  "pairs": r["n"], "bystanders": r["by"], "failing": len(lst), "of": total, "tuples": sha, "first": bells0}
+            if _setting(r):
+                w["setting"] = _setting(r)
             V.add(v[1], w, f"{r['variant']} ({_hw(r)}, {r['role']}, expect_phi_plus={r['expect']}), {r['n']} pair(s), "
                   f"{r['by']} other live qubit(s) on physical {r['bystanders']}: {len(lst)} of {total} Bell-state tuples fail with {v[1]}; first {bells0}: at event {v[3]} of "
                   f"{[(e['a'], e['p'], e['b'], e['q']) if e['a'] == 'deliver' else (e['a'], e['ax'], e['q'], e['q2']) for e in r['events']]} {r['exc']} {r['err']}", r)
@@ -458,6 +582,10 @@ def run(prop: str, tier: str) -> int:
         shutil.rmtree(tmp, ignore_errors=True)
 
 
+def _setting(r):
+    return "two-applications" if r.get("apps") == 2 else "after-an-earlier-session" if r.get("earlier_session") else ""
+
+
 def _hw(r):
     if r["kind"] == "uni":
         return {"nvt": "nv-transpiler", "generic": "generic/unitary", "nv": "nv/unitary"}[r["hw"]]
@@ -474,11 +602,13 @@ def _kinds(rows):
 
 def _dispatch(item):
     k = item[1]["kind"]
+    if k == "frame" and item[1].get("apps") == 2:
+        return _run_frame_two(item)
     return _run_frame(item) if k == "frame" else (_run_uni(item) if k == "uni" else _run_meas(item))
 
 
 def replay_case(prop, case, tmp):
-    keep = ("kind", "variant", "nv", "role", "expect", "n", "bells", "by", "api", "bell", "basis")
+    keep = ("kind", "variant", "nv", "role", "expect", "n", "bells", "by", "api", "bell", "basis", "early", "tries", "earlier_session", "apps", "first", "interleave")
     row = _dispatch((1, {k: case[k] for k in keep if k in case}))
     res = C.run_tlc_sharded("BellFrame", [row], tmp, shards=1, cfg="BellFrame.cfg")
     return res.verdicts[0][1] if res.verdicts else None
